@@ -221,9 +221,9 @@ fire('tree-eq-by-value', ['C11'], ['TREE-2'], 'operators compare equal by value'
 fire('tree-sibling-eq', ['C11'], ['TREE-2'], 'sibling lookup uses == instead of is',
      (TREE, "        # Can't use index(); we need to test by identity\n        for i, child in enumerate(parent.children):\n            if child is self:\n                try:",
       "        # Can't use index(); we need to test by identity\n        for i, child in enumerate(parent.children):\n            if child == self:\n                try:"))
-fire('tree-memo-not-reset', ['C04'], ['TREE-6'], 'DiffParser.update no longer resets Module._used_names',
+fire('tree-memo-not-reset', ['C04', 'C03', 'C14'], ['TREE-6'], 'DiffParser.update no longer resets Module._used_names',
      (DIFF, "        self._module._used_names = None\n", ""))
-fire('tree-new-memo', ['C04'], ['TREE-6'], 'a second memo slot is added to Module and never reset',
+fire('tree-new-memo', ['C04', 'C03', 'C14'], ['TREE-6'], 'a second memo slot is added to Module and never reset',
      (PYTREE, "    __slots__ = ('_used_names',)\n    type = 'file_input'\n\n    def __init__(self, children):\n        super().__init__(children)\n        self._used_names = None\n",
       "    __slots__ = ('_used_names', '_future_names')\n    type = 'file_input'\n\n    def __init__(self, children):\n        super().__init__(children)\n        self._used_names = None\n        self._future_names = None\n\n    def get_future_names(self):\n        if self._future_names is None:\n            self._future_names = list(self._iter_future_import_names())\n        return self._future_names\n"))
 fire('tree-close-skipped', ['C04'], ['TREE-6'], 'update returns early without writing the nodes back',
@@ -423,6 +423,25 @@ silent('s-utils-cookie-equivalent', ['C15'], 'equivalent spelling of the declara
        (UTILS, 'br"[ \\t\\f]*#[^\\r\\n]*?coding[:=][ \\t]*([-\\w.]+)",', 'br"[ \\t\\f]*#[^\\r\\n]*?coding(?::|=)[\\t ]*([-\\w.]+)",'))
 silent('s-utils-split-compiled', ['C03', 'C15', 'C01'], 'line-break pattern with a group',
        (UTILS, "        return re.split(r'\\n|\\r\\n|\\r', string)", "        return re.split(r'(?:\\r\\n|\\n|\\r)', string)"))
+
+# the declaration search written line by line (round-4 seed rt4-C15 and its correct twin)
+_COOKIE_OLD = '        possible_encoding = re.match(\n            br"(?:[ \\t\\f]*(?:#[^\\r\\n]*)?(?:\\r\\n|\\r|\\n))??"\n            br"[ \\t\\f]*#[^\\r\\n]*?coding[:=][ \\t]*([-\\w.]+)",\n            source\n        )\n        if possible_encoding:\n            e = possible_encoding.group(1)\n            if not isinstance(e, str):\n                e = str(e, \'ascii\', \'replace\')\n            return _get_normal_encoding_name(e)\n        else:\n            # the default if nothing else has been set -> PEP 263\n            return encoding\n'
+fire('utils-cookie-lineloop-dot', ['C15'], ['RX-5'], "line-by-line search whose comment part is `.*?` (crosses a bare \\r in bytes)",
+     (UTILS, _COOKIE_OLD, "        cookie_re = re.compile(br'[ \\t\\f]*#.*?coding[:=][ \\t]*([-\\w.]+)')\n        blank_re = re.compile(br'[ \\t\\f]*(?:#[^\\r\\n]*)?(?:\\r\\n|\\r|\\n)')\n        pos = 0\n        for _ in range(2):\n            possible_encoding = cookie_re.match(source, pos)\n            if possible_encoding:\n                e = str(possible_encoding.group(1), 'ascii', 'replace')\n                return _get_normal_encoding_name(e)\n            line = blank_re.match(source, pos)\n            if line is None:\n                break\n            pos = line.end()\n        return encoding\n"))
+silent('s-utils-cookie-lineloop', ['C15'], 'line-by-line declaration search with [^\\r\\n]*? (equivalent to the anchored pattern)',
+       (UTILS, _COOKIE_OLD, "        cookie_re = re.compile(br'[ \\t\\f]*#[^\\r\\n]*?coding[:=][ \\t]*([-\\w.]+)')\n        blank_re = re.compile(br'[ \\t\\f]*(?:#[^\\r\\n]*)?(?:\\r\\n|\\r|\\n)')\n        pos = 0\n        for _ in range(2):\n            possible_encoding = cookie_re.match(source, pos)\n            if possible_encoding:\n                e = str(possible_encoding.group(1), 'ascii', 'replace')\n                return _get_normal_encoding_name(e)\n            line = blank_re.match(source, pos)\n            if line is None:\n                break\n            pos = line.end()\n        return encoding\n"))
+
+# PAR-11 reserved-word lookup keyed by the token text
+fire('par11-normalised-key', ['C06', 'C05'], ['PAR-11'], 'the reserved-word lookup NFKC-normalises non-ASCII token text first',
+     (PARSER, "        # Check for reserved words (keywords)\n        try:", "        # Check for reserved words (keywords)\n        if not value.isascii():\n            import unicodedata\n            value = unicodedata.normalize('NFKC', value)\n        try:"))
+fire('par11-casefold-leaf', ['C06', 'C05'], ['PAR-11'], 'convert_leaf decides keyword-ness on the lower-cased text',
+     (PYPARSER, "            if value in self._pgen_grammar.reserved_syntax_strings:", "            if value.lower() in self._pgen_grammar.reserved_syntax_strings:"))
+fire('par11-caller-strips', ['C06', 'C05'], ['PAR-11'], 'the engine strips the token text before mapping it to a transition',
+     (PARSER, "        transition = _token_to_transition(grammar, type_, value)", "        transition = _token_to_transition(grammar, type_, value.strip())"))
+silent('s-par11-alias', ['C06', 'C05'], 'the lookup key goes through a local alias',
+       (PARSER, "            return grammar.reserved_syntax_strings[value]", "            key = value\n            return grammar.reserved_syntax_strings[key]"))
+silent('s-par11-membership', ['C06', 'C05'], 'convert_leaf binds the table to a local first',
+       (PYPARSER, "            if value in self._pgen_grammar.reserved_syntax_strings:", "            reserved = self._pgen_grammar.reserved_syntax_strings\n            if value in reserved:"))
 
 # TOK-3 typestate
 fire('tok3-comment-drops-prefix', ['C01', 'C09'], ['TOK-3'], 'a comment inside brackets replaces the pending prefix instead of extending it',
